@@ -177,7 +177,7 @@ def real_function(key: str):
 
 def to_jsonable(v):
     if isinstance(v, np.ndarray):
-        return {"__nd__": v.tolist(), "dtype": str(v.dtype)}
+        return {"__nd__": v.tolist(), "dtype": str(v.dtype), "shape": list(v.shape)}     # the shape: an empty (0, 2) array is not an empty (0,) one
     # numpy scalars keep their type through a replay file (`x is y`, `type(x) is float`, integer division and overflow behave
     # differently for numpy scalars and Python numbers)
     if isinstance(v, (np.integer,)):
@@ -200,7 +200,8 @@ def to_jsonable(v):
 def from_jsonable(v):
     if isinstance(v, dict):
         if "__nd__" in v:
-            return np.array(v["__nd__"], dtype=v.get("dtype", "float64"))
+            a = np.array(v["__nd__"], dtype=v.get("dtype", "float64"))
+            return a.reshape(v["shape"]) if "shape" in v and a.size == 0 else a
         if "__np__" in v:
             return np.dtype(v.get("dtype", "float64")).type(v["__np__"])
         if "__tuple__" in v:
